@@ -142,3 +142,42 @@ func armorNoCRC(typ string, body []byte) []byte {
 	out.WriteString(b64 + "\n-----END " + typ + "-----\n")
 	return out.Bytes()
 }
+
+var pgpMultiCache []byte
+
+// pgpArmoredMulti: a self-signed RSA key with several user IDs (public block, armored).
+func pgpArmoredMulti(ids []string) []byte {
+	if pgpMultiCache != nil {
+		return pgpMultiCache
+	}
+	cfg := &packet.Config{RSABits: 1024, Rand: rand.Reader}
+	e, err := openpgp.NewEntity(ids[0], "", "a@example.com", cfg)
+	if err != nil {
+		fatalf("NewEntity: %v", err)
+	}
+	for _, n := range ids[1:] {
+		uid := packet.NewUserId(n, "", strings.ToLower(n)+"@example.com")
+		isPrimary := false
+		id := &openpgp.Identity{Name: uid.Id, UserId: uid, SelfSignature: &packet.Signature{
+			CreationTime: e.PrimaryKey.CreationTime, SigType: packet.SigTypePositiveCert, PubKeyAlgo: packet.PubKeyAlgoRSA,
+			Hash: cfg.Hash(), IsPrimaryId: &isPrimary, FlagsValid: true, FlagSign: true, FlagCertify: true, IssuerKeyId: &e.PrimaryKey.KeyId}}
+		e.Identities[uid.Id] = id
+	}
+	var priv bytes.Buffer
+	if err := e.SerializePrivate(&priv, nil); err != nil {
+		fatalf("SerializePrivate: %v", err)
+	}
+	e2, err := openpgp.ReadEntity(packet.NewReader(bytes.NewReader(priv.Bytes())))
+	if err != nil {
+		fatalf("re-read: %v", err)
+	}
+	var pub bytes.Buffer
+	_ = e2.Serialize(&pub)
+	var out bytes.Buffer
+	w, _ := armor.Encode(&out, "PGP PUBLIC KEY BLOCK", nil)
+	_, _ = w.Write(pub.Bytes())
+	_ = w.Close()
+	out.WriteByte('\n')
+	pgpMultiCache = out.Bytes()
+	return pgpMultiCache
+}
